@@ -1,4 +1,5 @@
 import QProofs.C13
+import QProofs.C13Gen
 /-!
 # C13 — property theorems: results depend only on arguments (state machines of QModel.C13)
 
@@ -276,5 +277,72 @@ stays as it was -/
 example : projEqWithVar 2 2 ((1 : Rat) / 2) false [1, 2, 3, 4, 5, 6, 7, 8]
     = ([-3/2, -2, 3, 4, 5/2, 2, 7, 8], [1, 2, 3, 4, 5, 6, 7, 8]) := by
   decide +kernel
+
+/-! ## (g) the attribute discipline the state machines assume, proved about tables REGENERATED from the source
+
+`QGen/C13.lean` is rewritten by `harness/c13_translate.py` (Python `ast`) from /repo on every run. The theorems below are
+finite facts about those tables (`decide`); together with the correspondence they tie the hand-written machines to the code:
+a new cached attribute, a memoising decorator, an in-place array operation or an attribute write outside the declared
+mutators changes a table and breaks the corresponding obligation. -/
+section generated
+open QGen.C13 Gen
+
+/-- C13.g: the nine attributes `CompositeSystem.__init__` resets are exactly the model's cache keys, in order. -/
+theorem gen_cache_attrs : csCacheInit.map keyOfAttr = Key.all.map some := by decide
+
+/-- C13.g: every generated getter tests a cache key and, when it is `None`, assigns exactly the tables of that key's
+builder group (`Key.grp`); every key has a getter. -/
+theorem gen_getters_match_model :
+    csGetters.all getterOk = true ∧
+    Key.all.all (fun k => csGetters.any (fun e => keyOfAttr e.2.1 == some k)) = true := by decide
+
+/-- C13.g: every generated `delete_*` resets exactly one attribute, a deletable key, and the deletable keys are exactly
+those with a delete method (`Key.deletable`). -/
+theorem gen_deletes_match_model :
+    csDeletes.all deleteOk = true ∧
+    Key.all.all (fun k => k.deletable == csDeletes.any (fun e => e.2.map keyOfAttr == [some k])) = true := by decide
+
+/-- C13.g: after construction a CompositeSystem only ever binds cache attributes (the basis the tables are computed from
+is never re-bound), and the one method that binds the defining data resets every cache — the hypothesis `tbl` of
+`cache_transparent` is a function of the object's construction only. -/
+theorem gen_cs_writes_only_caches :
+    csWriters.all (fun e => e.1 == "__init__" || e.2.all (fun a => (keyOfAttr a).isSome)) = true ∧
+    csWriters.all (fun e => !(e.2.contains "_total_basis" || e.2.contains "_elemental_systems")
+      || csCacheInit.all (e.2.contains ·)) = true := by decide
+
+/-- C13.g `gen_writers_declared`: in all 43 scanned classes (value objects, bases, systems, Settings, Experiment,
+tomography, estimator, loss, option and algorithm classes) the only methods that bind an attribute of their object are
+constructors and the declared mutators — no query, conversion, projection, estimate or property getter keeps state. -/
+theorem gen_writers_declared : objWriters.all writerOk = true := by decide
+
+/-- C13.g: no method of those classes carries a memoising (or any non-standard) decorator. -/
+theorem gen_no_memo_decorators : objDecorators.all (fun e => e.2.2 == "abstractproperty") = true := by decide
+
+/-- C13.g: in-place operations on containers held by an object occur only in constructors / their helpers and in the cache
+builders that fill the dictionary they have just created. -/
+theorem gen_inplace_declared : objInplace.all (fun e => declaredInplace.contains (e.1, e.2.1)) = true := by decide
+
+/-- C13.g `gen_cache_follows_source`: for the fast losses, every method (own or inherited, resolved along the generated
+base-class table, self-calls and `super()` calls followed) that binds a source attribute also binds the cache derived
+from it: `_weight_matrices → _extend_weight_matrix`, `_prob_dists_q → _prob_dists_q_flat`, `_weights → _extend_weights`. -/
+theorem gen_cache_follows_source : derivedCaches.all cacheFollows = true := by decide
+
+/-- C13.g: `set_constraint_from_standard_qt_and_option` has the shape the algorithm machine mirrors: `_qt` is assigned
+first, then `if self._func_proj is not None: return`, then an if / elif / else chain on the two flags whose factories are
+those of `projOf`. -/
+theorem gen_pgd_shape (qt : Nat) (onEq onIneq ie : Bool) (mi : Option Nat) :
+    pgdPre = ["_qt"] ∧ pgdGuard = "_func_proj" ∧
+    genFactory onEq onIneq = some (factoryName (projOf qt ⟨onEq, onIneq, ie, mi⟩)) := by
+  refine ⟨by decide, by decide, ?_⟩
+  cases onEq <;> cases onIneq <;> simp [projOf, factoryName] <;> decide
+
+/-- non-vacuity: the tables are not empty, and the closure does follow a `super()` call and a self-call
+(`set_weight_matrices` of the fast loss binds both the weights and the extended weights) -/
+example : csGetters.length = 9 ∧ csDeletes.length = 8 ∧ 40 < objWriters.length ∧
+    effWrites "StandardQTomographyBasedWeightedProbabilityBasedSquaredError" 6
+      (mro 8 "StandardQTomographyBasedWeightedProbabilityBasedSquaredError") "set_weight_matrices"
+      = ["_extend_weight_matrix", "_weight_matrices"] := by decide
+
+end generated
 
 end QM.C13
